@@ -17,6 +17,7 @@ pub mod c12_support;
 pub mod c13;
 pub mod c14;
 pub mod c15;
+pub mod c16;
 pub mod c17;
 pub mod c18;
 pub mod c19;
@@ -41,6 +42,7 @@ pub fn run(check: &str, ctx: &mut Ctx) -> bool {
         "c13" => c13::run(ctx),
         "c14" => c14::run(ctx),
         "c15" => c15::run(ctx),
+        "c16" => c16::run(ctx),
         "c17" => c17::run(ctx),
         "c18" => c18::run(ctx),
         "c19" => c19::run(ctx),
